@@ -114,9 +114,9 @@ def run(tier, replay):
             gens = [(3, 1, [1, 2, 3], [], 3, "cat", 100000), (3, 1, [1, 2, 3], [2], 2, "grep", 100000),
                     (3, 1, [1, 2, 3], [1, 3], 1, "cat", 100000),
                     (4, 2, [1, 2, 3, 4], [3], 1, "cat", 700), (4, 1, [1, 2, 3, 4], [2], 1, "cat", 700),
-                    (3, 2, [1, 2, 3], [], 3, "tail", 200), (4, 1, [1, 2, 3, 4], [], 4, "tail", 200),
+                    (3, 2, [1, 2, 3], [], 3, "tail", 200), (4, 1, [1, 2, 3, 4], [], 2, "tail", 200),
                     (4, 2, [1, 2, 2, 3], [], 2, "cat", 400), (4, 2, [1, 2, 2, 3], [], 2, "catglob", 400), (4, 1, [1, 1, 2, 2], [], 2, "catglob", 300),
-                    (5, 2, [1, 2, 2, 2, 3], [], 1, "catglob", 300), (4, 2, [1, 2, 2, 3], [], 2, "tailglob", 150),
+                    (4, 2, [1, 2, 2, 3], [], 2, "tailglob", 150),
                     (3, 1, [1, 2, 3], [], 3, "tailrot", 60), (3, 2, [1, 2, 3], [], 3, "tailrot", 60)]
         cases = []
         meta = {}
